@@ -409,6 +409,13 @@ Definition amt_ok (sg : bool) (k : amt_kind) (a : Z) : Prop :=
   | KXmr, true => - (2 ^ 63 - 1) <= a <= 2 ^ 63 - 1
   end.
 
+Lemma amt_ok_spec sg k a : amt_ok sg k a <->
+  match k, sg with
+  | KPico, false => 0 <= a <= 2 ^ 64 - 1 | KPico, true => - 2 ^ 63 <= a <= 2 ^ 63 - 1
+  | KXmr, false => 0 <= a <= 2 ^ 63 - 1 | KXmr, true => - (2 ^ 63 - 1) <= a <= 2 ^ 63 - 1
+  end.
+Proof. destruct k, sg; reflexivity. Qed.
+
 Lemma amt_rt sg k a : amt_ok sg k a ->
   exists j, to_json_amt sg k a = AOk j /\ of_json_amt sg k j = Some a /\ j <> JNull.
 Proof.
